@@ -107,10 +107,22 @@ func (r *Run) Thorough() bool { return r.Tier == "thorough" }
 
 // Pick quick or thorough value
 func (r *Run) Pick(quick, thorough int) int {
+	v := quick
 	if r.Thorough() {
-		return thorough
+		v = thorough
 	}
-	return quick
+	// VERIF_SCALE (float) scales every case count; for experiments only
+	if s := os.Getenv("VERIF_SCALE"); s != "" {
+		var f float64
+		fmt.Sscan(s, &f)
+		if f > 0 {
+			v = int(float64(v) * f)
+			if v < 1 {
+				v = 1
+			}
+		}
+	}
+	return v
 }
 
 // Eval counts one evaluated case
